@@ -148,10 +148,20 @@ public:
     suspend_point<bool> push(Args && ... args) {
         std::unique_lock lk(_mx);
         if (!_awaiters.empty()) {
-            promise<T> p = std::move(_awaiters.front());
-            _awaiters.pop();
-            lk.unlock();
-            return p(std::forward<Args>(args)...);
+            if constexpr(!std::is_void_v<T> && std::is_move_constructible_v<T>) {
+                //construct the item before the waiter is taken: the constructor can throw
+                //and the waiting pop must not be lost then
+                T item(std::forward<Args>(args)...);
+                promise<T> p = std::move(_awaiters.front());
+                _awaiters.pop();
+                lk.unlock();
+                return p(std::move(item));
+            } else {
+                promise<T> p = std::move(_awaiters.front());
+                _awaiters.pop();
+                lk.unlock();
+                return p(std::forward<Args>(args)...);
+            }
         } else {
             _queue.emplace(std::forward<Args>(args)...);
             return false;
@@ -274,10 +284,20 @@ public:
     future<void> push(Args && ... args) {
         std::unique_lock lk(this->_mx);
         if (!this->_awaiters.empty()) {
-            promise<T> p = std::move(this->_awaiters.front());
-            this->_awaiters.pop();
-            lk.unlock();
-            p(std::forward<Args>(args)...);
+            if constexpr(!std::is_void_v<T> && std::is_move_constructible_v<T>) {
+                //construct the item before the waiter is taken: the constructor can throw
+                //and the waiting pop must not be lost then
+                T item(std::forward<Args>(args)...);
+                promise<T> p = std::move(this->_awaiters.front());
+                this->_awaiters.pop();
+                lk.unlock();
+                p(std::move(item));
+            } else {
+                promise<T> p = std::move(this->_awaiters.front());
+                this->_awaiters.pop();
+                lk.unlock();
+                p(std::forward<Args>(args)...);
+            }
             return future<void>::set_value();
         } else {
             if (this->_queue.size() >= _limit) {
